@@ -101,7 +101,9 @@ def bad_lookup(rng, V, tbl, isotopes_ok=True):
                                                                     sym.upper() if len(sym) > 1 else sym + "q",
                                                                     e["name"]])]
         if route == "attr":
-            s = rng.choice([x for x in BAD_SYMBOLS if x and x not in TABLE_ATTRS] + [sym + "x", e["name"]])
+            # (an element NAME as a table attribute is left out: a tree may legitimately offer
+            # table.iron next to periodictable.iron; names stay invalid for symbol() and isotope())
+            s = rng.choice([x for x in BAD_SYMBOLS if x and x not in TABLE_ATTRS] + [sym + "x"])
             return ["badkey", tbl, "attr", s]
         if route == "name":
             return ["badkey", tbl, "name", rng.choice(BAD_NAMES + [sym, e["name"].capitalize(), e["name"] + "s"])]
@@ -110,6 +112,9 @@ def bad_lookup(rng, V, tbl, isotopes_ok=True):
                 continue
             return ["badkey", tbl, "modattr", rng.choice(["Xx", "fe", "Iron", "Dd", "Uuo", sym + "x"])]
         if route == "isostr":
+            if rng.random() < 0.15:
+                A = rng.choice(e["isotopes"]) if isotopes_ok and e["isotopes"] else 1
+                return ["badkey", tbl, "isostr", rng.choice([e["name"], "%d-%s" % (A, e["name"])])]
             if rng.random() < 0.5 or not isotopes_ok or not e["isotopes"]:
                 return ["badkey", tbl, "isostr", rng.choice(BAD_ISOSTR)]
             As = e["isotopes"]
